@@ -643,7 +643,7 @@ pub fn scenarios(tier: Tier) -> Vec<Scenario> {
 /// list of prepared states in each of which a chain event is pending (so that `Poll` has a block to connect, a
 /// reorg to follow, a tracker to complete, a user to purge ...). The hand-written scenarios above are the ones a
 /// reader of the code would think of; this family is there for the ones nobody thought of. `with_poll_only`
-/// restricts it to the pairs in which one side is the chain event (quick tier).
+/// restricts it to the pairs in which one side is the chain event (VERIF_GEN_POLL_ONLY).
 pub fn generated(with_poll_only: bool) -> Vec<Scenario> {
     let cfg = TowerCfg { slots: 4, duration: 400, grace: 6, txindex: false };
     let add = |u, k, b| Ev::Add { user: u, disp: k, blob: b, tsd: 42 };
@@ -954,7 +954,7 @@ fn run_s(prop: &'static str, tier: Tier) -> i32 {
         return 2;
     }
     let bound = std::env::var("VERIF_PREEMPTIONS").ok().and_then(|v| v.parse().ok()).unwrap_or(if tier == Tier::Quick { 3 } else { 4 });
-    let total = Duration::from_secs(std::env::var("VERIF_BUDGET_S").ok().and_then(|v| v.parse().ok()).unwrap_or(if tier == Tier::Quick { if prop == "C11" { 22 } else { 40 } } else { 900 }));
+    let total = Duration::from_secs(std::env::var("VERIF_BUDGET_S").ok().and_then(|v| v.parse().ok()).unwrap_or(if tier == Tier::Quick { if prop == "C11" { 18 } else { 36 } } else { 900 }));
     let started = Instant::now();
     let mut scs = scenarios(tier);
     // debugging aid: only the scenarios whose name contains the given text (the evidence then says so)
@@ -984,9 +984,9 @@ fn run_s(prop: &'static str, tier: Tier) -> i32 {
         run.sample(json!({"scenario": sc.name, "seed": sc.seed.iter().map(|e| format!("{e:?}")).collect::<Vec<_>>(), "ops": sc.ops.iter().map(|o| format!("{o:?}")).collect::<Vec<_>>()}));
     }
     // the systematic family (every pair of operations from every prepared state), scenarios side by side
-    let gen_only_poll = tier == Tier::Quick;
+    let gen_only_poll = std::env::var("VERIF_GEN_POLL_ONLY").is_ok();
     let gen_bound: usize = std::env::var("VERIF_GEN_PREEMPTIONS").ok().and_then(|v| v.parse().ok()).unwrap_or(if tier == Tier::Quick { 1 } else { 2 });
-    let gen_budget = Duration::from_secs(std::env::var("VERIF_GEN_BUDGET_S").ok().and_then(|v| v.parse().ok()).unwrap_or(if tier == Tier::Quick { 14 } else { 1500 }));
+    let gen_budget = Duration::from_secs(std::env::var("VERIF_GEN_BUDGET_S").ok().and_then(|v| v.parse().ok()).unwrap_or(if tier == Tier::Quick { 25 } else { 1500 }));
     let mut gens = generated(gen_only_poll);
     if let Some(o) = &only {
         gens.retain(|s| s.name.contains(o.as_str()));
@@ -1015,7 +1015,7 @@ fn run_s(prop: &'static str, tier: Tier) -> i32 {
     total_out += gen_out;
     run.set(
         "generated_family",
-        json!({"what": "every pair of operations of the alphabet next to each other from every prepared state with a pending chain event (quick tier: the pairs with the chain event on one side)",
+        json!({"what": "every pair of operations of the alphabet (chain event, registration of an old / a new user, five submissions, two reads) next to each other from every one of nine prepared states with a pending chain event; quick tier: one pre-emption, thorough: two",
             "scenarios": gens.len(), "preemption_bound": gen_bound, "scenarios_completed_at_that_bound": gen_complete, "schedules": gen_sched,
             "scenarios_with_more_than_one_outcome": gen_multi, "wall_s": gen_started.elapsed().as_secs_f64(),
             "per_scenario_[name,schedules,distinct_outcomes,sequential_outcomes,bound_completed]": gen_detail}),
